@@ -51,7 +51,9 @@ def panel(name, seed=0):
     return _frame(_trend(3, 20, 2000 + seed, noise=25.0)), 5
   if name == 'P10':    # 5 geos
     return _frame(_trend(5, 24, 7)), 7
+  if name == 'P11':    # 4 geos of comparable size (subset sums interleave)
+    return _frame(_trend(4, 24, 8, scale=[3.0, 2.8, 2.7, 1.5])), 7
   raise KeyError(name)
 
 
-ALL = ['P1', 'P2', 'P3', 'P4', 'P5', 'P6', 'P7', 'P8', 'P9', 'P10']
+ALL = ['P1', 'P2', 'P3', 'P4', 'P5', 'P6', 'P7', 'P8', 'P9', 'P10', 'P11']
